@@ -10,6 +10,21 @@ TRUST = ("rustc 1.95.0 and its diagnostics, the std derives, the hand-written dx
 
 # id -> (technique, level text, design ref, level note)
 CHECKS = {
+    "C05": ("exhaustive in-process expansion of the 3136-combination matrix judged by a documented accept/reject model, cross-checked with rustc diagnostics",
+            "All 94080 (combination, trait, placement, entry) points plus every supertrait-closed subset of derived traits "
+            "and all misplaced arguments are expanded by the real expander and compared with the model; a sample is compiled "
+            "with the real proc-macro and rustc's error list compared. Exhaustive over the stated finite matrix, exploration beyond it.",
+            "DESIGN.md §4 C05", "accept/reject model written from the documentation (don't-care classes listed in the evidence); " + TRUST),
+    "C14": ("in-process expansion of generated items; emitted item compared token-for-token with the expected re-emission",
+            "Held on every generated item of the run: first emitted item equals the input minus derive_ex attributes and "
+            "documented helper attributes; on erroring inputs the item survives next to a compile_error!.",
+            "DESIGN.md §4 C14", "ownership table of helper attributes read from the doc table; " + TRUST),
+    "C15": ("metamorphic relations over in-process expansions (entry point, list splitting, supersets, permutations)",
+            "Held on every relation instance of the run (token equality of generated impls).",
+            "DESIGN.md §4 C15", "relations only; no model of the generated code; " + TRUST),
+    "C19": ("differential in-process expansion with and without dump; dump text re-lexed and compared with the generated items",
+            "Held on every (item, dump placement) pair of the run.",
+            "DESIGN.md §4 C19", TRUST),
     "C16": ("in-process mutation fuzzing of the real expander under panic/re-parse/run-twice monitors",
             "Held on every mutant executed (count in evidence): no panic, output parses (rustc is the final judge of "
             "well-formedness), every compile_error! has a message, two runs and two processes agree. Exploration only: "
